@@ -480,3 +480,64 @@ def _is_self_level(t):
     # (*self).recursion_level : proj(proj(arg1, deref), f:3)
     return t[0] == "proj" and isinstance(t[2], tuple) and t[2][0] == "f" and t[1][0] == "proj" and t[1][2] == "deref" \
         and t[1][1] == ("arg", 1)
+
+
+# ---------------------------------------------------------------------------------------------------------------------
+# R-STR-SLICE
+
+def _boundary_safe(t, depth=0):
+    """is the byte offset term t certain to fall on a char boundary of the sliced string?  Accepted: 0; the result of
+    find/rfind on the same text (Some payload); len() of a whole string; sums of those"""
+    import affine as A
+    t = mir.strip_refs(t)
+    if depth > 12:
+        return False
+    if A.const_int(t) == 0:
+        return True
+    if t[0] == "bin" and t[1] == "Add":
+        return _boundary_safe(t[2], depth + 1) and _boundary_safe(t[3], depth + 1)
+    if t[0] == "call" and isinstance(t[1], str) and t[1].split("::")[-1] == "len":
+        return True
+    if t[0] == "proj":
+        # payload of Some(find(..))
+        b = t
+        while b[0] == "proj":
+            b = b[1]
+        if b[0] == "call" and isinstance(b[1], str) and b[1].split("::")[-1] in ("find", "rfind"):
+            return True
+    if t[0] in ("phi",):
+        return all(_boundary_safe(o, depth + 1) for o in t[2])
+    return False
+
+
+@rule("R-STR-SLICE", ["C09"])
+def r_str_slice(cx):
+    """every byte-range slice of a str/String must cut at char boundaries for *every* text"""
+    n = 0
+    for name in cx.f.fn_names():
+        f = cx.f.fn(name)
+        k = 0
+        for bb, t in f.calls():
+            full = t.get("callee_full") or ""
+            c = f.callee(t) or ""
+            if not ("for str>::index" in c or " str as std::ops::Index" in full or "String as std::ops::Index" in full
+                    or "<str as std::ops::Index" in full):
+                continue
+            if (t["span"].get("exp") or "").startswith("macro"):
+                continue
+            n += 1
+            rng = mir.strip_refs(f.arg_terms(bb)[1])
+            bounds = list(rng[2]) if rng[0] == "agg" else []
+            if "RangeFull" in full:
+                cx.ob("R-STR-SLICE", "%s/slice%d" % (name, k), True, "%s: full-range slice" % name, cx.where(t["span"]),
+                      nontrivial=False)
+                k += 1
+                continue
+            ok = bool(bounds) and all(_boundary_safe(b) for b in bounds)
+            cx.ob("R-STR-SLICE", "%s/slice%d" % (name, k), ok,
+                  "%s: slice bounds %s come from find()/len() of the text and are char boundaries" % (
+                      name, [mir.show(b, maxd=2)[:30] for b in bounds]) if ok else
+                  "%s slices a string at byte offset(s) %s, which need not be char boundaries: a text with a multi-byte "
+                  "character there panics" % (name, [mir.show(b, maxd=3)[:40] for b in bounds]), cx.where(t["span"]))
+            k += 1
+    cx.count("R-STR-SLICE", "slices", n)
